@@ -560,7 +560,17 @@ func (circuitSuite) Run(h map[string]string, ops []string) []string {
 				return fmt.Sprintf("ev=%s rd=%s open=%s fan=%s", listOr(e.recs[0].log, ";"), e.readingsStr(), b01(e.c.IsOpen()), b01(e.fanOk()))
 			case "setcfg":
 				applyCfg(&e.base, m)
-				e.c.SetConfigThreadSafe(e.base)
+				if m["partial"] == "1" {
+					// a configuration that only names the settings being retuned: no TimeKeeper, factories or collectors
+					var p circuit.Config
+					p.General.ForceOpen, p.General.ForcedClosed, p.General.Disabled = e.base.General.ForceOpen, e.base.General.ForcedClosed, e.base.General.Disabled
+					p.Execution.Timeout, p.Execution.MaxConcurrentRequests = e.base.Execution.Timeout, e.base.Execution.MaxConcurrentRequests
+					p.Execution.IgnoreInterrupts, p.Execution.IsErrInterrupt = e.base.Execution.IgnoreInterrupts, e.base.Execution.IsErrInterrupt
+					p.Fallback.Disabled, p.Fallback.MaxConcurrentRequests = e.base.Fallback.Disabled, e.base.Fallback.MaxConcurrentRequests
+					e.c.SetConfigThreadSafe(p)
+				} else {
+					e.c.SetConfigThreadSafe(e.base)
+				}
 			case "tick":
 				e.clk.now += atoi(f[1])
 			case "fire":
@@ -699,6 +709,10 @@ func (circuitSuite) Gen(r *rand.Rand, i int) Case {
 			}
 			if r.Intn(4) == 0 {
 				parts = append(parts, "iei="+pick(r, "unset", "always", "never", "canceled"))
+			}
+			if r.Intn(3) == 0 {
+				parts = append(parts, "partial=1")
+				tag("partial-config")
 			}
 			c.Ops = append(c.Ops, strings.TrimSpace("setcfg "+strings.Join(parts, " ")))
 			tag("setcfg")
